@@ -233,7 +233,7 @@ def IntegratedWienerProcess(
 
     .. math::
         \\begin{align}
-        \\frac{d}{dt} x_t &= y_t + \\sigma * \\mathrm{asperity} * \\xi^1_t , \\\\
+        \\frac{d}{dt} x_t &= y_t + \\sigma * \\sqrt{\\mathrm{asperity}} * \\xi^1_t , \\\\
         \\frac{d}{dt} y_t &= \\sigma * \\xi^2_t
         \\end{align}
 
@@ -303,7 +303,7 @@ def OrnsteinUhlenbeckProcess(
     The stochastic differential equation of the OUP takes the form:
 
     .. math::
-        \\frac{d}{dt} x_t + \\gamma x_t = \\sigma \\xi_t
+        \\frac{d}{dt} x_t + \\gamma x_t = \\sigma \\sqrt{2 \\gamma} \\xi_t
 
     where :math:`\\xi_t` is continuous time white noise.
 
